@@ -81,6 +81,11 @@ func genLemma(P *Program, lm *Lemma) (ob *Obligation, err error) {
 	for _, c := range lm.Ensures {
 		goals = append(goals, vc.evalBool(c.E, env, st, st))
 	}
+	// axioms (assumptions stated in the contract files, listed in the evidence)
+	for _, ax := range P.contracts.Axioms {
+		aenv := &Env{vc: vc, names: map[string]envEntry{}, pkg: pkg}
+		hyps = append(hyps, vc.evalBool(ax.E, aenv, st, st))
+	}
 	// previously stated lemmas used as hypotheses (each is an obligation of
 	// its own)
 	for _, u := range lm.Uses {
